@@ -263,3 +263,121 @@ func malformedVarints() [][]byte {
 		ff(11, 0x01),
 	}
 }
+
+// ---------------------------------------------------------------------------
+// non-minimal spellings of varints
+
+// respell writes v as a varint with `pad` superfluous bytes: the minimal bytes with the
+// continuation bit set on the last one, pad-1 bytes 0x80, and a final 0x00.  pad = 0 gives
+// the minimal form.  go-varint rejects every pad > 0 ("not minimally encoded", or
+// overflow beyond nine bytes); encoding/binary's reader accepts them up to ten bytes.
+func respell(v uint64, pad int) []byte {
+	b := append([]byte{}, varint.ToUvarint(v)...)
+	if pad == 0 {
+		return b
+	}
+	b[len(b)-1] |= 0x80
+	for i := 1; i < pad; i++ {
+		b = append(b, 0x80)
+	}
+	return append(b, 0x00)
+}
+
+// padsFor returns the paddings tried for a varint whose minimal form has n bytes: 1..3,
+// and the ones that make it nine and ten bytes long.
+func padsFor(n int) []int {
+	p := []int{1, 2, 3}
+	if 9-n > 3 {
+		p = append(p, 9-n)
+	}
+	if 10-n > 3 {
+		p = append(p, 10-n)
+	}
+	return p
+}
+
+// cidRespelled returns the CID bytes with its i-th varint (version, codec, multihash code,
+// multihash length) written with `pad` superfluous bytes; nil for CIDv0 or when there is
+// no such varint.
+func cidRespelled(c []byte, i, pad int) []byte {
+	if len(c) == 34 && c[0] == 0x12 && c[1] == 0x20 {
+		return nil
+	}
+	off := 0
+	for k := 0; k < 4; k++ {
+		v, n, err := varint.FromUvarint(c[off:])
+		if err != nil {
+			return nil
+		}
+		if k == i {
+			return cat(c[:off], respell(v, pad), c[off+n:])
+		}
+		off += n
+	}
+	return nil
+}
+
+func gsPayload(c []byte, vd, fr bool) []byte {
+	return cat([]byte{0xa3}, cborKey("PieceCID"), cborLink(c), cborKey("VerifiedDeal"), cborBool(vd), cborKey("FastRetrieval"), cborBool(fr))
+}
+
+// respelledEncodings: the encoding of `specs` (in ascending ID order) with exactly one
+// varint written non-minimally -- every varint position in turn: each protocol's code,
+// an unknown protocol's size, the gateway's payload length, and the four varints inside a
+// CIDv1 piece CID (the CBOR byte-string length is adjusted, so that only the varint is
+// at fault).
+func respelledEncodings(specs []PSpec) []decInput {
+	sorted := stableSorted(specs)
+	enc := make([][]byte, len(sorted))
+	for i, s := range sorted {
+		e, err := s.build().MarshalBinary()
+		if err != nil {
+			panic(err)
+		}
+		enc[i] = e
+	}
+	var out []decInput
+	with := func(i int, repl []byte, kind string) {
+		parts := append([][]byte{}, enc...)
+		parts[i] = repl
+		out = append(out, decInput{kind, cat(parts...)})
+	}
+	for i, s := range sorted {
+		idb := varint.ToUvarint(s.id())
+		rest := enc[i][len(idb):]
+		for _, p := range padsFor(len(idb)) {
+			with(i, cat(respell(s.id(), p), rest), "nonminimal:code")
+		}
+		switch s.K {
+		case "gateway":
+			for _, p := range padsFor(1) {
+				with(i, cat(idb, respell(0, p)), "nonminimal:gateway-length")
+			}
+		case "unknown":
+			body := mustHex(s.Body)
+			for _, p := range padsFor(len(varint.ToUvarint(uint64(len(body))))) {
+				with(i, cat(idb, respell(uint64(len(body)), p), body), "nonminimal:unknown-size")
+			}
+		case "gs":
+			c := mustHex(s.Cid)
+			for k := 0; k < 4; k++ {
+				for _, p := range []int{1, 2, 3} {
+					if rc := cidRespelled(c, k, p); rc != nil {
+						with(i, cat(idb, gsPayload(rc, s.VD, s.FR)), "nonminimal:cid-varint")
+					}
+				}
+			}
+		}
+	}
+	return out
+}
+
+// paddedSizeWithTail: an unknown protocol whose size varint carries `pad` superfluous
+// bytes, and whose declared payload ends j bytes into `tail`, where `tail` is itself a
+// well-formed, sorted protocol sequence.  A reader that accepts the padded varint but
+// counts the bytes of the minimal spelling resumes `pad` bytes early; with j == pad that is
+// exactly at the start of `tail`, which then parses as further protocols.
+func paddedSizeWithTail(code uint64, pad int, prefix, tail []byte, j int) []byte {
+	size := uint64(len(prefix) + j)
+	return cat(uv(code), respell(size, pad), prefix, tail)
+}
